@@ -209,7 +209,7 @@ std::vector<T> const& exponents()
             r.push_back(T(128));
             r.push_back(T(200));
         }
-        return finish(std::move(r));
+        return finish_t(std::move(r));
     }();
     return v;
 }
